@@ -390,7 +390,13 @@ def run_case(case, ctx):
                         st.count("two_step_histories_with_a_larger_B")
             tol = 1e-6 if len(pat["elements"]) == 1 else 2 * c05.bound(atol, pat["positions"], B["positions"])
             frac = [1.0, 0.5, 0.67][(case["s"] // 7) % 3]
-            n = check_aba(ctx, st, S, patterns.to_atoms(pat), patterns.to_atoms(B), pat, B, atol, case["s"], w, tol, fraction=frac, sample=["reversed", "real"][case["s"] % 2], grown=len(B["elements"]) > len(pat["elements"]), kept=kept)
+            # patterns read from a CIF / LAMMPS file carry the box they were drawn in (5 - 7.5 A, or half the structure's cell): it says
+            # nothing about the structure's lattice
+            pkw = {}
+            if case["s"] % 5 == 3:
+                pkw = {"cell": np.diag(rng.uniform(5.0, 7.5, 3)) if rng.integers(3) else np.array(S.cell, float) * 0.5}
+                st.count("two_step_histories_whose_patterns_carry_their_own_cell")
+            n = check_aba(ctx, st, S, patterns.to_atoms(pat, **pkw), patterns.to_atoms(B, **pkw), pat, B, atol, case["s"], w, tol, fraction=frac, sample=["reversed", "real"][case["s"] % 2], grown=len(B["elements"]) > len(pat["elements"]), kept=kept)
         st.seen("synthetic_kind", kind)
         st.seen("cell_class", case["cell"])
         if n:
@@ -421,6 +427,8 @@ def run_case(case, ctx):
 
 def requirements(stats, tier):
     need = []
+    if stats.get("two_step_histories_whose_patterns_carry_their_own_cell") < (20 if tier == "quick" else 2000):
+        need.append("two-step histories whose patterns carry a cell of their own: %d" % stats.get("two_step_histories_whose_patterns_carry_their_own_cell"))
     if stats.get("two_step_histories_whose_occurrences_share_an_atom_both_patterns_keep") < (15 if tier == "quick" else 1000):
         need.append("two-step histories whose occurrences share a kept atom: %d" % stats.get("two_step_histories_whose_occurrences_share_an_atom_both_patterns_keep"))
     if stats.get("self_replacements") < (100 if tier == "quick" else 12000) or stats.get("restorations_checked") < (100 if tier == "quick" else 12000):
